@@ -400,12 +400,12 @@ PROPS["C10"] = {
                   "(block layer list, loops, accumulation, optimizer, batch size) configuration is replayed: the block is built through the public "
                   "builder, its copies must be bit-identical at creation and after training (weights, biases, kernels), the `parameters:` line "
                   "must count one copy, and training must not panic",
-    "level_note": "nine block layer lists (dense with/without bias, conv, deconv, pairs, non-square kernels), loops <= 3, 2 training epochs on 3 samples; the coupled "
+    "level_note": "eleven block layer lists (dense with/without bias, conv, deconv, pairs, non-square kernels), loops <= 3, 2 training epochs on 3 samples; the coupled "
                   "VALUE is not prescribed by the property and not compared",
     "rule": "one case = one (block, loops, accumulation, optimizer, batch) configuration; all distinct; non-trivial = all (every case trains)",
     "mc": [{"module": "MC_C10",
-            "consts": {"quick": {"MaxLoops": 3, "MaxSteps": 2, "Blocks": "{1, 2, 3, 4, 5, 6, 7, 8, 9}", "Optimizers": '{"sgd", "sgd-decay", "sgdm-decay", "adam", "rmsprop"}', "Batches": "{1, 2}"},
-                       "thorough": {"MaxLoops": 4, "MaxSteps": 3, "Blocks": "{1, 2, 3, 4, 5, 6, 7, 8, 9}", "Optimizers": '{"sgd", "sgd-decay", "sgdm", "sgdm-decay", "adam", "adam-decay", "adamw", "rmsprop", "rmsprop-decay"}', "Batches": "{1, 2, 3}"}},
+            "consts": {"quick": {"MaxLoops": 3, "MaxSteps": 2, "Blocks": "{1, 2, 3, 4, 5, 6, 7, 8, 9, 10, 11}", "Optimizers": '{"sgd", "sgd-decay", "sgdm-decay", "adam", "rmsprop"}', "Batches": "{1, 2}"},
+                       "thorough": {"MaxLoops": 4, "MaxSteps": 3, "Blocks": "{1, 2, 3, 4, 5, 6, 7, 8, 9, 10, 11}", "Optimizers": '{"sgd", "sgd-decay", "sgdm", "sgdm-decay", "adam", "adam-decay", "adamw", "rmsprop", "rmsprop-decay"}', "Batches": "{1, 2, 3}"}},
             "workers": 8, "timeout": {"quick": 600, "thorough": 3600}}],
     "assumptions": COMMON_ASSUMPTIONS,
 }
